@@ -4,27 +4,48 @@ theories/Common/LE.vos theories/Common/LE.vok theories/Common/LE.required_vos: t
 theories/Conc/Pool.vo theories/Conc/Pool.glob theories/Conc/Pool.v.beautified theories/Conc/Pool.required_vo: theories/Conc/Pool.v 
 theories/Conc/Pool.vio: theories/Conc/Pool.v 
 theories/Conc/Pool.vos theories/Conc/Pool.vok theories/Conc/Pool.required_vos: theories/Conc/Pool.v 
+theories/Conc/PoolProofs.vo theories/Conc/PoolProofs.glob theories/Conc/PoolProofs.v.beautified theories/Conc/PoolProofs.required_vo: theories/Conc/PoolProofs.v theories/Conc/Pool.vo
+theories/Conc/PoolProofs.vio: theories/Conc/PoolProofs.v theories/Conc/Pool.vio
+theories/Conc/PoolProofs.vos theories/Conc/PoolProofs.vok theories/Conc/PoolProofs.required_vos: theories/Conc/PoolProofs.v theories/Conc/Pool.vos
 theories/Conc/RefCnt.vo theories/Conc/RefCnt.glob theories/Conc/RefCnt.v.beautified theories/Conc/RefCnt.required_vo: theories/Conc/RefCnt.v theories/Conc/Pool.vo
 theories/Conc/RefCnt.vio: theories/Conc/RefCnt.v theories/Conc/Pool.vio
 theories/Conc/RefCnt.vos theories/Conc/RefCnt.vok theories/Conc/RefCnt.required_vos: theories/Conc/RefCnt.v theories/Conc/Pool.vos
 theories/Conc/RefProofs.vo theories/Conc/RefProofs.glob theories/Conc/RefProofs.v.beautified theories/Conc/RefProofs.required_vo: theories/Conc/RefProofs.v theories/Conc/Pool.vo theories/Conc/RefCnt.vo
 theories/Conc/RefProofs.vio: theories/Conc/RefProofs.v theories/Conc/Pool.vio theories/Conc/RefCnt.vio
 theories/Conc/RefProofs.vos theories/Conc/RefProofs.vok theories/Conc/RefProofs.required_vos: theories/Conc/RefProofs.v theories/Conc/Pool.vos theories/Conc/RefCnt.vos
+theories/Conc/RwMutexInv.vo theories/Conc/RwMutexInv.glob theories/Conc/RwMutexInv.v.beautified theories/Conc/RwMutexInv.required_vo: theories/Conc/RwMutexInv.v theories/Conc/RwMutexModel.vo theories/Conc/RwMutexProofs.vo
+theories/Conc/RwMutexInv.vio: theories/Conc/RwMutexInv.v theories/Conc/RwMutexModel.vio theories/Conc/RwMutexProofs.vio
+theories/Conc/RwMutexInv.vos theories/Conc/RwMutexInv.vok theories/Conc/RwMutexInv.required_vos: theories/Conc/RwMutexInv.v theories/Conc/RwMutexModel.vos theories/Conc/RwMutexProofs.vos
 theories/Conc/RwMutexModel.vo theories/Conc/RwMutexModel.glob theories/Conc/RwMutexModel.v.beautified theories/Conc/RwMutexModel.required_vo: theories/Conc/RwMutexModel.v 
 theories/Conc/RwMutexModel.vio: theories/Conc/RwMutexModel.v 
 theories/Conc/RwMutexModel.vos theories/Conc/RwMutexModel.vok theories/Conc/RwMutexModel.required_vos: theories/Conc/RwMutexModel.v 
 theories/Conc/RwMutexProofs.vo theories/Conc/RwMutexProofs.glob theories/Conc/RwMutexProofs.v.beautified theories/Conc/RwMutexProofs.required_vo: theories/Conc/RwMutexProofs.v theories/Conc/RwMutexModel.vo
 theories/Conc/RwMutexProofs.vio: theories/Conc/RwMutexProofs.v theories/Conc/RwMutexModel.vio
 theories/Conc/RwMutexProofs.vos theories/Conc/RwMutexProofs.vok theories/Conc/RwMutexProofs.required_vos: theories/Conc/RwMutexProofs.v theories/Conc/RwMutexModel.vos
+theories/Conc/TPool.vo theories/Conc/TPool.glob theories/Conc/TPool.v.beautified theories/Conc/TPool.required_vo: theories/Conc/TPool.v 
+theories/Conc/TPool.vio: theories/Conc/TPool.v 
+theories/Conc/TPool.vos theories/Conc/TPool.vok theories/Conc/TPool.required_vos: theories/Conc/TPool.v 
+theories/Conc/TPoolLemmas.vo theories/Conc/TPoolLemmas.glob theories/Conc/TPoolLemmas.v.beautified theories/Conc/TPoolLemmas.required_vo: theories/Conc/TPoolLemmas.v theories/Conc/TPool.vo
+theories/Conc/TPoolLemmas.vio: theories/Conc/TPoolLemmas.v theories/Conc/TPool.vio
+theories/Conc/TPoolLemmas.vos theories/Conc/TPoolLemmas.vok theories/Conc/TPoolLemmas.required_vos: theories/Conc/TPoolLemmas.v theories/Conc/TPool.vos
+theories/Conc/ThreadQ.vo theories/Conc/ThreadQ.glob theories/Conc/ThreadQ.v.beautified theories/Conc/ThreadQ.required_vo: theories/Conc/ThreadQ.v 
+theories/Conc/ThreadQ.vio: theories/Conc/ThreadQ.v 
+theories/Conc/ThreadQ.vos theories/Conc/ThreadQ.vok theories/Conc/ThreadQ.required_vos: theories/Conc/ThreadQ.v 
+theories/Conc/ThreadQProofs.vo theories/Conc/ThreadQProofs.glob theories/Conc/ThreadQProofs.v.beautified theories/Conc/ThreadQProofs.required_vo: theories/Conc/ThreadQProofs.v theories/Conc/ThreadQ.vo
+theories/Conc/ThreadQProofs.vio: theories/Conc/ThreadQProofs.v theories/Conc/ThreadQ.vio
+theories/Conc/ThreadQProofs.vos theories/Conc/ThreadQProofs.vok theories/Conc/ThreadQProofs.required_vos: theories/Conc/ThreadQProofs.v theories/Conc/ThreadQ.vos
 theories/Cont/HtIdeal.vo theories/Cont/HtIdeal.glob theories/Cont/HtIdeal.v.beautified theories/Cont/HtIdeal.required_vo: theories/Cont/HtIdeal.v theories/Cont/HtModel.vo
 theories/Cont/HtIdeal.vio: theories/Cont/HtIdeal.v theories/Cont/HtModel.vio
 theories/Cont/HtIdeal.vos theories/Cont/HtIdeal.vok theories/Cont/HtIdeal.required_vos: theories/Cont/HtIdeal.v theories/Cont/HtModel.vos
+theories/Cont/HtLemmas.vo theories/Cont/HtLemmas.glob theories/Cont/HtLemmas.v.beautified theories/Cont/HtLemmas.required_vo: theories/Cont/HtLemmas.v theories/Cont/HtModel.vo
+theories/Cont/HtLemmas.vio: theories/Cont/HtLemmas.v theories/Cont/HtModel.vio
+theories/Cont/HtLemmas.vos theories/Cont/HtLemmas.vok theories/Cont/HtLemmas.required_vos: theories/Cont/HtLemmas.v theories/Cont/HtModel.vos
 theories/Cont/HtModel.vo theories/Cont/HtModel.glob theories/Cont/HtModel.v.beautified theories/Cont/HtModel.required_vo: theories/Cont/HtModel.v 
 theories/Cont/HtModel.vio: theories/Cont/HtModel.v 
 theories/Cont/HtModel.vos theories/Cont/HtModel.vok theories/Cont/HtModel.required_vos: theories/Cont/HtModel.v 
-theories/Cont/HtProofs.vo theories/Cont/HtProofs.glob theories/Cont/HtProofs.v.beautified theories/Cont/HtProofs.required_vo: theories/Cont/HtProofs.v theories/Cont/HtModel.vo theories/Cont/HtStep.vo theories/Cont/HtIdeal.vo
-theories/Cont/HtProofs.vio: theories/Cont/HtProofs.v theories/Cont/HtModel.vio theories/Cont/HtStep.vio theories/Cont/HtIdeal.vio
-theories/Cont/HtProofs.vos theories/Cont/HtProofs.vok theories/Cont/HtProofs.required_vos: theories/Cont/HtProofs.v theories/Cont/HtModel.vos theories/Cont/HtStep.vos theories/Cont/HtIdeal.vos
+theories/Cont/HtRepr.vo theories/Cont/HtRepr.glob theories/Cont/HtRepr.v.beautified theories/Cont/HtRepr.required_vo: theories/Cont/HtRepr.v theories/Cont/HtModel.vo theories/Cont/HtLemmas.vo
+theories/Cont/HtRepr.vio: theories/Cont/HtRepr.v theories/Cont/HtModel.vio theories/Cont/HtLemmas.vio
+theories/Cont/HtRepr.vos theories/Cont/HtRepr.vok theories/Cont/HtRepr.required_vos: theories/Cont/HtRepr.v theories/Cont/HtModel.vos theories/Cont/HtLemmas.vos
 theories/Cont/HtStep.vo theories/Cont/HtStep.glob theories/Cont/HtStep.v.beautified theories/Cont/HtStep.required_vo: theories/Cont/HtStep.v theories/Cont/HtModel.vo
 theories/Cont/HtStep.vio: theories/Cont/HtStep.v theories/Cont/HtModel.vio
 theories/Cont/HtStep.vos theories/Cont/HtStep.vok theories/Cont/HtStep.required_vos: theories/Cont/HtStep.v theories/Cont/HtModel.vos
@@ -49,9 +70,9 @@ theories/Cont/QueueOps2.vos theories/Cont/QueueOps2.vok theories/Cont/QueueOps2.
 theories/Cont/QueueOps3.vo theories/Cont/QueueOps3.glob theories/Cont/QueueOps3.v.beautified theories/Cont/QueueOps3.required_vo: theories/Cont/QueueOps3.v theories/Cont/QueueModel.vo theories/Cont/QueueLemmas.vo theories/Cont/QueueInv.vo theories/Cont/QueueOps1.vo theories/Cont/QueueEnsure.vo theories/Cont/QueueOps2.vo
 theories/Cont/QueueOps3.vio: theories/Cont/QueueOps3.v theories/Cont/QueueModel.vio theories/Cont/QueueLemmas.vio theories/Cont/QueueInv.vio theories/Cont/QueueOps1.vio theories/Cont/QueueEnsure.vio theories/Cont/QueueOps2.vio
 theories/Cont/QueueOps3.vos theories/Cont/QueueOps3.vok theories/Cont/QueueOps3.required_vos: theories/Cont/QueueOps3.v theories/Cont/QueueModel.vos theories/Cont/QueueLemmas.vos theories/Cont/QueueInv.vos theories/Cont/QueueOps1.vos theories/Cont/QueueEnsure.vos theories/Cont/QueueOps2.vos
-theories/Cont/QueueProofs.vo theories/Cont/QueueProofs.glob theories/Cont/QueueProofs.v.beautified theories/Cont/QueueProofs.required_vo: theories/Cont/QueueProofs.v theories/Cont/QueueModel.vo
-theories/Cont/QueueProofs.vio: theories/Cont/QueueProofs.v theories/Cont/QueueModel.vio
-theories/Cont/QueueProofs.vos theories/Cont/QueueProofs.vok theories/Cont/QueueProofs.required_vos: theories/Cont/QueueProofs.v theories/Cont/QueueModel.vos
+theories/Cont/QueueProofs.vo theories/Cont/QueueProofs.glob theories/Cont/QueueProofs.v.beautified theories/Cont/QueueProofs.required_vo: theories/Cont/QueueProofs.v theories/Gen/Consts.vo theories/Cont/QueueModel.vo theories/Cont/QueueLemmas.vo theories/Cont/QueueInv.vo theories/Cont/QueueOps1.vo theories/Cont/QueueEnsure.vo theories/Cont/QueueOps2.vo theories/Cont/QueueOps3.vo
+theories/Cont/QueueProofs.vio: theories/Cont/QueueProofs.v theories/Gen/Consts.vio theories/Cont/QueueModel.vio theories/Cont/QueueLemmas.vio theories/Cont/QueueInv.vio theories/Cont/QueueOps1.vio theories/Cont/QueueEnsure.vio theories/Cont/QueueOps2.vio theories/Cont/QueueOps3.vio
+theories/Cont/QueueProofs.vos theories/Cont/QueueProofs.vok theories/Cont/QueueProofs.required_vos: theories/Cont/QueueProofs.v theories/Gen/Consts.vos theories/Cont/QueueModel.vos theories/Cont/QueueLemmas.vos theories/Cont/QueueInv.vos theories/Cont/QueueOps1.vos theories/Cont/QueueEnsure.vos theories/Cont/QueueOps2.vos theories/Cont/QueueOps3.vos
 theories/Cont/StrL0.vo theories/Cont/StrL0.glob theories/Cont/StrL0.v.beautified theories/Cont/StrL0.required_vo: theories/Cont/StrL0.v 
 theories/Cont/StrL0.vio: theories/Cont/StrL0.v 
 theories/Cont/StrL0.vos theories/Cont/StrL0.vok theories/Cont/StrL0.required_vos: theories/Cont/StrL0.v 
@@ -61,6 +82,9 @@ theories/Cont/StrModel.vos theories/Cont/StrModel.vok theories/Cont/StrModel.req
 theories/Cont/StrProofs.vo theories/Cont/StrProofs.glob theories/Cont/StrProofs.v.beautified theories/Cont/StrProofs.required_vo: theories/Cont/StrProofs.v theories/Gen/Consts.vo theories/Cont/StrL0.vo theories/Cont/StrModel.vo
 theories/Cont/StrProofs.vio: theories/Cont/StrProofs.v theories/Gen/Consts.vio theories/Cont/StrL0.vio theories/Cont/StrModel.vio
 theories/Cont/StrProofs.vos theories/Cont/StrProofs.vok theories/Cont/StrProofs.required_vos: theories/Cont/StrProofs.v theories/Gen/Consts.vos theories/Cont/StrL0.vos theories/Cont/StrModel.vos
+theories/Flt/FltModel.vo theories/Flt/FltModel.glob theories/Flt/FltModel.v.beautified theories/Flt/FltModel.required_vo: theories/Flt/FltModel.v theories/Gen/Consts.vo theories/Msg/MsgDefs.vo theories/Msg/MsgModel.vo
+theories/Flt/FltModel.vio: theories/Flt/FltModel.v theories/Gen/Consts.vio theories/Msg/MsgDefs.vio theories/Msg/MsgModel.vio
+theories/Flt/FltModel.vos theories/Flt/FltModel.vok theories/Flt/FltModel.required_vos: theories/Flt/FltModel.v theories/Gen/Consts.vos theories/Msg/MsgDefs.vos theories/Msg/MsgModel.vos
 theories/Gen/Consts.vo theories/Gen/Consts.glob theories/Gen/Consts.v.beautified theories/Gen/Consts.required_vo: theories/Gen/Consts.v 
 theories/Gen/Consts.vio: theories/Gen/Consts.v 
 theories/Gen/Consts.vos theories/Gen/Consts.vok theories/Gen/Consts.required_vos: theories/Gen/Consts.v 
@@ -73,30 +97,51 @@ theories/Gw/FrameProofs.vos theories/Gw/FrameProofs.vok theories/Gw/FrameProofs.
 theories/Gw/GwBase.vo theories/Gw/GwBase.glob theories/Gw/GwBase.v.beautified theories/Gw/GwBase.required_vo: theories/Gw/GwBase.v 
 theories/Gw/GwBase.vio: theories/Gw/GwBase.v 
 theories/Gw/GwBase.vos theories/Gw/GwBase.vok theories/Gw/GwBase.required_vos: theories/Gw/GwBase.v 
+theories/Gw/GwLemmas.vo theories/Gw/GwLemmas.glob theories/Gw/GwLemmas.v.beautified theories/Gw/GwLemmas.required_vo: theories/Gw/GwLemmas.v theories/Gw/GwBase.vo
+theories/Gw/GwLemmas.vio: theories/Gw/GwLemmas.v theories/Gw/GwBase.vio
+theories/Gw/GwLemmas.vos theories/Gw/GwLemmas.vok theories/Gw/GwLemmas.required_vos: theories/Gw/GwLemmas.v theories/Gw/GwBase.vos
 theories/Gw/MiniTunnel.vo theories/Gw/MiniTunnel.glob theories/Gw/MiniTunnel.v.beautified theories/Gw/MiniTunnel.required_vo: theories/Gw/MiniTunnel.v theories/Common/LE.vo theories/Gen/Consts.vo theories/Gw/Tunnel.vo
 theories/Gw/MiniTunnel.vio: theories/Gw/MiniTunnel.v theories/Common/LE.vio theories/Gen/Consts.vio theories/Gw/Tunnel.vio
 theories/Gw/MiniTunnel.vos theories/Gw/MiniTunnel.vok theories/Gw/MiniTunnel.required_vos: theories/Gw/MiniTunnel.v theories/Common/LE.vos theories/Gen/Consts.vos theories/Gw/Tunnel.vos
 theories/Gw/RawModel.vo theories/Gw/RawModel.glob theories/Gw/RawModel.v.beautified theories/Gw/RawModel.required_vo: theories/Gw/RawModel.v theories/Gen/Consts.vo theories/Gw/GwBase.vo
 theories/Gw/RawModel.vio: theories/Gw/RawModel.v theories/Gen/Consts.vio theories/Gw/GwBase.vio
 theories/Gw/RawModel.vos theories/Gw/RawModel.vok theories/Gw/RawModel.required_vos: theories/Gw/RawModel.v theories/Gen/Consts.vos theories/Gw/GwBase.vos
+theories/Gw/RawProofs.vo theories/Gw/RawProofs.glob theories/Gw/RawProofs.v.beautified theories/Gw/RawProofs.required_vo: theories/Gw/RawProofs.v theories/Gen/Consts.vo theories/Gw/GwBase.vo theories/Gw/GwLemmas.vo theories/Gw/RawModel.vo theories/Gw/TransportProofs.vo
+theories/Gw/RawProofs.vio: theories/Gw/RawProofs.v theories/Gen/Consts.vio theories/Gw/GwBase.vio theories/Gw/GwLemmas.vio theories/Gw/RawModel.vio theories/Gw/TransportProofs.vio
+theories/Gw/RawProofs.vos theories/Gw/RawProofs.vok theories/Gw/RawProofs.required_vos: theories/Gw/RawProofs.v theories/Gen/Consts.vos theories/Gw/GwBase.vos theories/Gw/GwLemmas.vos theories/Gw/RawModel.vos theories/Gw/TransportProofs.vos
 theories/Gw/SlipModel.vo theories/Gw/SlipModel.glob theories/Gw/SlipModel.v.beautified theories/Gw/SlipModel.required_vo: theories/Gw/SlipModel.v theories/Gen/Consts.vo theories/Gw/GwBase.vo theories/Gw/RawModel.vo
 theories/Gw/SlipModel.vio: theories/Gw/SlipModel.v theories/Gen/Consts.vio theories/Gw/GwBase.vio theories/Gw/RawModel.vio
 theories/Gw/SlipModel.vos theories/Gw/SlipModel.vok theories/Gw/SlipModel.required_vos: theories/Gw/SlipModel.v theories/Gen/Consts.vos theories/Gw/GwBase.vos theories/Gw/RawModel.vos
 theories/Gw/TextModel.vo theories/Gw/TextModel.glob theories/Gw/TextModel.v.beautified theories/Gw/TextModel.required_vo: theories/Gw/TextModel.v theories/Gen/Consts.vo theories/Gw/GwBase.vo
 theories/Gw/TextModel.vio: theories/Gw/TextModel.v theories/Gen/Consts.vio theories/Gw/GwBase.vio
 theories/Gw/TextModel.vos theories/Gw/TextModel.vok theories/Gw/TextModel.required_vos: theories/Gw/TextModel.v theories/Gen/Consts.vos theories/Gw/GwBase.vos
+theories/Gw/TransportProofs.vo theories/Gw/TransportProofs.glob theories/Gw/TransportProofs.v.beautified theories/Gw/TransportProofs.required_vo: theories/Gw/TransportProofs.v theories/Gw/GwBase.vo
+theories/Gw/TransportProofs.vio: theories/Gw/TransportProofs.v theories/Gw/GwBase.vio
+theories/Gw/TransportProofs.vos theories/Gw/TransportProofs.vok theories/Gw/TransportProofs.required_vos: theories/Gw/TransportProofs.v theories/Gw/GwBase.vos
 theories/Gw/Tunnel.vo theories/Gw/Tunnel.glob theories/Gw/Tunnel.v.beautified theories/Gw/Tunnel.required_vo: theories/Gw/Tunnel.v theories/Common/LE.vo theories/Gen/Consts.vo
 theories/Gw/Tunnel.vio: theories/Gw/Tunnel.v theories/Common/LE.vio theories/Gen/Consts.vio
 theories/Gw/Tunnel.vos theories/Gw/Tunnel.vok theories/Gw/Tunnel.required_vos: theories/Gw/Tunnel.v theories/Common/LE.vos theories/Gen/Consts.vos
+theories/Gw/TunnelComplete.vo theories/Gw/TunnelComplete.glob theories/Gw/TunnelComplete.v.beautified theories/Gw/TunnelComplete.required_vo: theories/Gw/TunnelComplete.v theories/Common/LE.vo theories/Gen/Consts.vo theories/Gw/Tunnel.vo theories/Gw/TunnelProofs.vo theories/Gw/TunnelSound.vo theories/Gw/TunnelSender.vo
+theories/Gw/TunnelComplete.vio: theories/Gw/TunnelComplete.v theories/Common/LE.vio theories/Gen/Consts.vio theories/Gw/Tunnel.vio theories/Gw/TunnelProofs.vio theories/Gw/TunnelSound.vio theories/Gw/TunnelSender.vio
+theories/Gw/TunnelComplete.vos theories/Gw/TunnelComplete.vok theories/Gw/TunnelComplete.required_vos: theories/Gw/TunnelComplete.v theories/Common/LE.vos theories/Gen/Consts.vos theories/Gw/Tunnel.vos theories/Gw/TunnelProofs.vos theories/Gw/TunnelSound.vos theories/Gw/TunnelSender.vos
 theories/Gw/TunnelProofs.vo theories/Gw/TunnelProofs.glob theories/Gw/TunnelProofs.v.beautified theories/Gw/TunnelProofs.required_vo: theories/Gw/TunnelProofs.v theories/Common/LE.vo theories/Gen/Consts.vo theories/Gw/Tunnel.vo
 theories/Gw/TunnelProofs.vio: theories/Gw/TunnelProofs.v theories/Common/LE.vio theories/Gen/Consts.vio theories/Gw/Tunnel.vio
 theories/Gw/TunnelProofs.vos theories/Gw/TunnelProofs.vok theories/Gw/TunnelProofs.required_vos: theories/Gw/TunnelProofs.v theories/Common/LE.vos theories/Gen/Consts.vos theories/Gw/Tunnel.vos
+theories/Gw/TunnelSender.vo theories/Gw/TunnelSender.glob theories/Gw/TunnelSender.v.beautified theories/Gw/TunnelSender.required_vo: theories/Gw/TunnelSender.v theories/Common/LE.vo theories/Gen/Consts.vo theories/Gw/Tunnel.vo theories/Gw/TunnelProofs.vo theories/Gw/TunnelSound.vo
+theories/Gw/TunnelSender.vio: theories/Gw/TunnelSender.v theories/Common/LE.vio theories/Gen/Consts.vio theories/Gw/Tunnel.vio theories/Gw/TunnelProofs.vio theories/Gw/TunnelSound.vio
+theories/Gw/TunnelSender.vos theories/Gw/TunnelSender.vok theories/Gw/TunnelSender.required_vos: theories/Gw/TunnelSender.v theories/Common/LE.vos theories/Gen/Consts.vos theories/Gw/Tunnel.vos theories/Gw/TunnelProofs.vos theories/Gw/TunnelSound.vos
 theories/Gw/TunnelSound.vo theories/Gw/TunnelSound.glob theories/Gw/TunnelSound.v.beautified theories/Gw/TunnelSound.required_vo: theories/Gw/TunnelSound.v theories/Common/LE.vo theories/Gen/Consts.vo theories/Gw/Tunnel.vo theories/Gw/TunnelProofs.vo
 theories/Gw/TunnelSound.vio: theories/Gw/TunnelSound.v theories/Common/LE.vio theories/Gen/Consts.vio theories/Gw/Tunnel.vio theories/Gw/TunnelProofs.vio
 theories/Gw/TunnelSound.vos theories/Gw/TunnelSound.vok theories/Gw/TunnelSound.required_vos: theories/Gw/TunnelSound.v theories/Common/LE.vos theories/Gen/Consts.vos theories/Gw/Tunnel.vos theories/Gw/TunnelProofs.vos
+theories/Gw/TunnelTheorems.vo theories/Gw/TunnelTheorems.glob theories/Gw/TunnelTheorems.v.beautified theories/Gw/TunnelTheorems.required_vo: theories/Gw/TunnelTheorems.v theories/Common/LE.vo theories/Gen/Consts.vo theories/Gw/Tunnel.vo theories/Gw/TunnelProofs.vo theories/Gw/TunnelSound.vo theories/Gw/TunnelSender.vo theories/Gw/TunnelComplete.vo
+theories/Gw/TunnelTheorems.vio: theories/Gw/TunnelTheorems.v theories/Common/LE.vio theories/Gen/Consts.vio theories/Gw/Tunnel.vio theories/Gw/TunnelProofs.vio theories/Gw/TunnelSound.vio theories/Gw/TunnelSender.vio theories/Gw/TunnelComplete.vio
+theories/Gw/TunnelTheorems.vos theories/Gw/TunnelTheorems.vok theories/Gw/TunnelTheorems.required_vos: theories/Gw/TunnelTheorems.v theories/Common/LE.vos theories/Gen/Consts.vos theories/Gw/Tunnel.vos theories/Gw/TunnelProofs.vos theories/Gw/TunnelSound.vos theories/Gw/TunnelSender.vos theories/Gw/TunnelComplete.vos
 theories/Msg/MsgApi.vo theories/Msg/MsgApi.glob theories/Msg/MsgApi.v.beautified theories/Msg/MsgApi.required_vo: theories/Msg/MsgApi.v theories/Gen/Consts.vo theories/Msg/MsgDefs.vo theories/Msg/MsgModel.vo
 theories/Msg/MsgApi.vio: theories/Msg/MsgApi.v theories/Gen/Consts.vio theories/Msg/MsgDefs.vio theories/Msg/MsgModel.vio
 theories/Msg/MsgApi.vos theories/Msg/MsgApi.vok theories/Msg/MsgApi.required_vos: theories/Msg/MsgApi.v theories/Gen/Consts.vos theories/Msg/MsgDefs.vos theories/Msg/MsgModel.vos
+theories/Msg/MsgBytesProofs.vo theories/Msg/MsgBytesProofs.glob theories/Msg/MsgBytesProofs.v.beautified theories/Msg/MsgBytesProofs.required_vo: theories/Msg/MsgBytesProofs.v theories/Gen/Consts.vo theories/Msg/MsgDefs.vo theories/Msg/MsgModel.vo
+theories/Msg/MsgBytesProofs.vio: theories/Msg/MsgBytesProofs.v theories/Gen/Consts.vio theories/Msg/MsgDefs.vio theories/Msg/MsgModel.vio
+theories/Msg/MsgBytesProofs.vos theories/Msg/MsgBytesProofs.vok theories/Msg/MsgBytesProofs.required_vos: theories/Msg/MsgBytesProofs.v theories/Gen/Consts.vos theories/Msg/MsgDefs.vos theories/Msg/MsgModel.vos
 theories/Msg/MsgDefs.vo theories/Msg/MsgDefs.glob theories/Msg/MsgDefs.v.beautified theories/Msg/MsgDefs.required_vo: theories/Msg/MsgDefs.v theories/Gen/Consts.vo
 theories/Msg/MsgDefs.vio: theories/Msg/MsgDefs.v theories/Gen/Consts.vio
 theories/Msg/MsgDefs.vos theories/Msg/MsgDefs.vok theories/Msg/MsgDefs.required_vos: theories/Msg/MsgDefs.v theories/Gen/Consts.vos
@@ -106,6 +151,9 @@ theories/Msg/MsgModel.vos theories/Msg/MsgModel.vok theories/Msg/MsgModel.requir
 theories/Msg/MsgProofs.vo theories/Msg/MsgProofs.glob theories/Msg/MsgProofs.v.beautified theories/Msg/MsgProofs.required_vo: theories/Msg/MsgProofs.v theories/Gen/Consts.vo theories/Msg/MsgDefs.vo theories/Msg/MsgModel.vo theories/Msg/MsgApi.vo
 theories/Msg/MsgProofs.vio: theories/Msg/MsgProofs.v theories/Gen/Consts.vio theories/Msg/MsgDefs.vio theories/Msg/MsgModel.vio theories/Msg/MsgApi.vio
 theories/Msg/MsgProofs.vos theories/Msg/MsgProofs.vok theories/Msg/MsgProofs.required_vos: theories/Msg/MsgProofs.v theories/Gen/Consts.vos theories/Msg/MsgDefs.vos theories/Msg/MsgModel.vos theories/Msg/MsgApi.vos
+theories/Msg/MsgSizeProofs.vo theories/Msg/MsgSizeProofs.glob theories/Msg/MsgSizeProofs.v.beautified theories/Msg/MsgSizeProofs.required_vo: theories/Msg/MsgSizeProofs.v theories/Gen/Consts.vo theories/Msg/MsgDefs.vo theories/Msg/MsgModel.vo theories/Msg/MsgBytesProofs.vo
+theories/Msg/MsgSizeProofs.vio: theories/Msg/MsgSizeProofs.v theories/Gen/Consts.vio theories/Msg/MsgDefs.vio theories/Msg/MsgModel.vio theories/Msg/MsgBytesProofs.vio
+theories/Msg/MsgSizeProofs.vos theories/Msg/MsgSizeProofs.vok theories/Msg/MsgSizeProofs.required_vos: theories/Msg/MsgSizeProofs.v theories/Gen/Consts.vos theories/Msg/MsgDefs.vos theories/Msg/MsgModel.vos theories/Msg/MsgBytesProofs.vos
 theories/Pat/Ere.vo theories/Pat/Ere.glob theories/Pat/Ere.v.beautified theories/Pat/Ere.required_vo: theories/Pat/Ere.v 
 theories/Pat/Ere.vio: theories/Pat/Ere.v 
 theories/Pat/Ere.vos theories/Pat/Ere.vok theories/Pat/Ere.required_vos: theories/Pat/Ere.v 
@@ -130,6 +178,9 @@ theories/Properties_C09.vos theories/Properties_C09.vok theories/Properties_C09.
 theories/Properties_C10.vo theories/Properties_C10.glob theories/Properties_C10.v.beautified theories/Properties_C10.required_vo: theories/Properties_C10.v theories/Conc/Pool.vo theories/Conc/RefCnt.vo theories/Conc/RefProofs.vo
 theories/Properties_C10.vio: theories/Properties_C10.v theories/Conc/Pool.vio theories/Conc/RefCnt.vio theories/Conc/RefProofs.vio
 theories/Properties_C10.vos theories/Properties_C10.vok theories/Properties_C10.required_vos: theories/Properties_C10.v theories/Conc/Pool.vos theories/Conc/RefCnt.vos theories/Conc/RefProofs.vos
+theories/Properties_C11.vo theories/Properties_C11.glob theories/Properties_C11.v.beautified theories/Properties_C11.required_vo: theories/Properties_C11.v theories/Gen/Consts.vo theories/Conc/ThreadQ.vo theories/Conc/ThreadQProofs.vo
+theories/Properties_C11.vio: theories/Properties_C11.v theories/Gen/Consts.vio theories/Conc/ThreadQ.vio theories/Conc/ThreadQProofs.vio
+theories/Properties_C11.vos theories/Properties_C11.vok theories/Properties_C11.required_vos: theories/Properties_C11.v theories/Gen/Consts.vos theories/Conc/ThreadQ.vos theories/Conc/ThreadQProofs.vos
 theories/Properties_C12.vo theories/Properties_C12.glob theories/Properties_C12.v.beautified theories/Properties_C12.required_vo: theories/Properties_C12.v theories/Common/LE.vo theories/Gw/Tunnel.vo theories/Gw/TunnelProofs.vo
 theories/Properties_C12.vio: theories/Properties_C12.v theories/Common/LE.vio theories/Gw/Tunnel.vio theories/Gw/TunnelProofs.vio
 theories/Properties_C12.vos theories/Properties_C12.vok theories/Properties_C12.required_vos: theories/Properties_C12.v theories/Common/LE.vos theories/Gw/Tunnel.vos theories/Gw/TunnelProofs.vos
@@ -139,15 +190,18 @@ theories/Properties_C13.vos theories/Properties_C13.vok theories/Properties_C13.
 theories/Properties_C15.vo theories/Properties_C15.glob theories/Properties_C15.v.beautified theories/Properties_C15.required_vo: theories/Properties_C15.v theories/Gen/Consts.vo theories/Pat/Ere.vo theories/Pat/Translate.vo theories/Pat/PatProofs.vo
 theories/Properties_C15.vio: theories/Properties_C15.v theories/Gen/Consts.vio theories/Pat/Ere.vio theories/Pat/Translate.vio theories/Pat/PatProofs.vio
 theories/Properties_C15.vos theories/Properties_C15.vok theories/Properties_C15.required_vos: theories/Properties_C15.v theories/Gen/Consts.vos theories/Pat/Ere.vos theories/Pat/Translate.vos theories/Pat/PatProofs.vos
-theories/Properties_C16.vo theories/Properties_C16.glob theories/Properties_C16.v.beautified theories/Properties_C16.required_vo: theories/Properties_C16.v theories/Cont/QueueModel.vo theories/Cont/QueueProofs.vo
-theories/Properties_C16.vio: theories/Properties_C16.v theories/Cont/QueueModel.vio theories/Cont/QueueProofs.vio
-theories/Properties_C16.vos theories/Properties_C16.vok theories/Properties_C16.required_vos: theories/Properties_C16.v theories/Cont/QueueModel.vos theories/Cont/QueueProofs.vos
+theories/Properties_C16.vo theories/Properties_C16.glob theories/Properties_C16.v.beautified theories/Properties_C16.required_vo: theories/Properties_C16.v theories/Cont/QueueModel.vo theories/Cont/QueueInv.vo theories/Cont/QueueProofs.vo
+theories/Properties_C16.vio: theories/Properties_C16.v theories/Cont/QueueModel.vio theories/Cont/QueueInv.vio theories/Cont/QueueProofs.vio
+theories/Properties_C16.vos theories/Properties_C16.vok theories/Properties_C16.required_vos: theories/Properties_C16.v theories/Cont/QueueModel.vos theories/Cont/QueueInv.vos theories/Cont/QueueProofs.vos
 theories/Properties_C17.vo theories/Properties_C17.glob theories/Properties_C17.v.beautified theories/Properties_C17.required_vo: theories/Properties_C17.v theories/Gen/Consts.vo theories/Cont/StrL0.vo theories/Cont/StrModel.vo theories/Cont/StrProofs.vo
 theories/Properties_C17.vio: theories/Properties_C17.v theories/Gen/Consts.vio theories/Cont/StrL0.vio theories/Cont/StrModel.vio theories/Cont/StrProofs.vio
 theories/Properties_C17.vos theories/Properties_C17.vok theories/Properties_C17.required_vos: theories/Properties_C17.v theories/Gen/Consts.vos theories/Cont/StrL0.vos theories/Cont/StrModel.vos theories/Cont/StrProofs.vos
 theories/Properties_C18.vo theories/Properties_C18.glob theories/Properties_C18.v.beautified theories/Properties_C18.required_vo: theories/Properties_C18.v theories/Conc/RwMutexModel.vo theories/Conc/RwMutexProofs.vo
 theories/Properties_C18.vio: theories/Properties_C18.v theories/Conc/RwMutexModel.vio theories/Conc/RwMutexProofs.vio
 theories/Properties_C18.vos theories/Properties_C18.vok theories/Properties_C18.required_vos: theories/Properties_C18.v theories/Conc/RwMutexModel.vos theories/Conc/RwMutexProofs.vos
+theories/Properties_C19.vo theories/Properties_C19.glob theories/Properties_C19.v.beautified theories/Properties_C19.required_vo: theories/Properties_C19.v theories/Conc/TPool.vo theories/Conc/TPoolLemmas.vo
+theories/Properties_C19.vio: theories/Properties_C19.v theories/Conc/TPool.vio theories/Conc/TPoolLemmas.vio
+theories/Properties_C19.vos theories/Properties_C19.vok theories/Properties_C19.required_vos: theories/Properties_C19.v theories/Conc/TPool.vos theories/Conc/TPoolLemmas.vos
 theories/Properties_C20.vo theories/Properties_C20.glob theories/Properties_C20.v.beautified theories/Properties_C20.required_vo: theories/Properties_C20.v theories/Pulse/PulseModel.vo theories/Pulse/PulseProofs.vo
 theories/Properties_C20.vio: theories/Properties_C20.v theories/Pulse/PulseModel.vio theories/Pulse/PulseProofs.vio
 theories/Properties_C20.vos theories/Properties_C20.vok theories/Properties_C20.required_vos: theories/Properties_C20.v theories/Pulse/PulseModel.vos theories/Pulse/PulseProofs.vos
